@@ -35,8 +35,13 @@ RULE = ("(a) merge: random data sets of n = 1..8 values (normal / integer-valued
         "(burn_in, steps in 0..3), state kind (Positive / Complex / DensityMatrix, nv 2..3, random non-zero biases) "
         "and observable (SigmaZ, SigmaX, SigmaY, |SigmaZ|, NeighbourInteraction open/periodic, 2*SigmaZ-SigmaX, "
         "0.5*SigmaX+NeighbourInteraction+1.0) rotating over the cases; plus user-supplied initial chains of every "
-        "length 1..num_samples+2 with overwrite on/off; (c) System: 2..4 observables incl. composites over all "
+        "length 1..num_samples+2 with overwrite on/off; (c) System: 0..4 observables incl. composites over all "
         "(num_samples, num_chains), each compared with the observable alone on the replayed chain states. "
+        "fixed cases run first: sizes of 4100..25000 samples / up to 25000 chains / statistics_from_samples on 4097..20000 "
+        "rows (SigmaZ, NeighbourInteraction, one SigmaX), Systems with ONE and with ZERO observables (incl. initial chains), "
+        "histories of 2-3 statistics() calls on the SAME observable / System object (each must burn in once and start fresh "
+        "chains unless initial chains are passed), initial chains of dtype float32 / int64 / uint8 (caller's tensor after "
+        "overwrite is required only for float64); the random stream repeats all of these regimes. "
         "call forms rotate over keyword / positional / all-keyword, plus calls relying on the signature defaults "
         "(num_chains, burn_in, steps); torch.bernoulli is wrapped during every run to tie each draw's first Gibbs "
         "conditional to the chain states it starts from. "
@@ -345,16 +350,30 @@ def run_merge(ctx, search=False):
 
 
 # ------------------------------------------------------------------------------------ (b), (c) statistics
-def split_init_call(calls, results, obs0, state):
+def split_init_call(calls, results, obs0, state, ks_without_init=None):
     """Which recorded sample() calls are DRAWS?  A leading call with k = 0 and initial_state None whose result is
     only handed on as the next call's initial_state is chain INITIALISATION, not a draw.  Decided by what the
     returned dictionary is consistent with: try "all calls", then "all but a leading k=0 / None-init call"; a
     candidate is consistent when the reported count is its number of rows and the reported mean is the mean of the
-    observable over its rows.  Returns (init_call or None, draws); falls back to all calls."""
+    observable over its rows.  Without any observable (empty System) the k arguments decide (ks_without_init =
+    (burn_in, steps, num_samples)).
+    Returns (init_call or None, draws); falls back to all calls."""
     cands = [(None, calls)]
     if len(calls) >= 2 and calls[0]["k"] == 0 and calls[0]["init"] is None:
         cands.append((calls[0], calls[1:]))
     if len(cands) == 1:
+        return cands[0]
+    if not results:
+        # nothing is computed from the draws: the k arguments decide, then (k schedule satisfied by both readings,
+        # i.e. burn_in = 0) the number of draws needed for the requested number of samples
+        burn, steps, S = ks_without_init
+        good = [(ic, dr) for ic, dr in cands if [c["k"] for c in dr] == [burn] + [steps] * (len(dr) - 1)]
+        if len(good) == 1:
+            return good[0]
+        for ic, dr in good:
+            rows = int(dr[0]["ret"].shape[0])
+            if rows and len(dr) == -(-S // rows):
+                return ic, dr
         return cands[0]
     for ic, dr in cands:
         try:
@@ -465,62 +484,99 @@ def call_statistics(target, state, S, nc, burn, steps, init, ow, form):
     return target.statistics(state, S, num_chains=nc, burn_in=burn, steps=steps, **extra)
 
 
+DTYPES = {"float64": "double", "float32": "float32", "int64": "int64", "uint8": "uint8"}
+
+
 def stat_case(ctx, spec, state=None):
-    """spec: part, state{...}, obs | obs_list, S, nc, burn, steps, init (list of rows or None), overwrite, torch_seed,
-    form (kw | positional | defaults | allkw; with `defaults` nc / burn / steps are those of the signature)"""
-    import torch
+    """spec: part, state{...}, obs | obs_list, S, nc, burn, steps, init (list of rows or None), init_dtype, overwrite,
+    torch_seed, form (kw | positional | defaults | allkw; with `defaults` nc / burn / steps are those of the signature),
+    then: list of dicts overriding S / nc / burn / steps / init / overwrite / form / torch_seed for further statistics()
+    calls made on the SAME observable / System object and the same state (a history on one object)."""
     from qucumber.observables import System
-    m = ctx.get_model()
-    case = spec
     state = state if state is not None else build_state(spec["state"])
     is_system = spec["part"] == "system"
-    form = spec.get("form", "kw")
-    S, nc, burn, steps, ow = spec["S"], spec["nc"], spec["burn"], spec["steps"], bool(spec["overwrite"])
     keys = spec["obs_list"] if is_system else [spec["obs"]]
     obs_list = [make_obs(k) for k in keys]
     target = System(*obs_list) if is_system else obs_list[0]
+    prev_final = None
+    for j, cs in enumerate([spec] + [dict(spec, **t) for t in spec.get("then", [])]):
+        prev_final = one_statistics_call(ctx, spec, cs, j, state, is_system, keys, obs_list, target, prev_final)
+        if prev_final is None:
+            return
+
+
+def one_statistics_call(ctx, case, spec, call_index, state, is_system, keys, obs_list, target, prev_final):
+    """one statistics() call of a history; returns the final chain states (or None when the call could not be judged)"""
+    import torch
+    m = ctx.get_model()
+    form = spec.get("form", "kw")
+    S, nc, burn, steps, ow = spec["S"], spec["nc"], spec["burn"], spec["steps"], bool(spec["overwrite"])
     if form == "defaults":
         nc, burn, steps = sig_defaults(target.statistics)
-    init = None if spec["init"] is None else torch.tensor(spec["init"], dtype=torch.double)
+    dtype_name = spec.get("init_dtype", "float64")
+    init = None if spec["init"] is None else torch.tensor(spec["init"], dtype=torch.double).to(getattr(torch, DTYPES[dtype_name]))
     init_before = None if init is None else init.clone()
     L = None if init is None else int(init.shape[0])
+    if call_index:
+        ctx.count("history:call_%d_on_same_object" % (call_index + 1))
     torch.manual_seed(spec["torch_seed"])
     with BernoulliSpy() as spy:
         with Recorder(state, spy=spy) as rec:
             ok, res = ctx.call(("System" if is_system else "Observable") + ".statistics", case,
                                call_statistics, target, state, S, nc, burn, steps, init, ow, form)
     if not ok:
-        return
+        return None
     all_calls = rec.calls
     results = None
     try:
         results = [res[o.name] for o in obs_list] if is_system else [res]
     except Exception as e:
         ctx.require("statistics returns a dictionary per observable", False, case, repr(e))
-        return
-    init_call, calls = split_init_call(all_calls, results, obs_list[0], state) if all_calls else (None, all_calls)
+        return None
+    if is_system:
+        ctx.require("System.statistics returns exactly one dictionary per observable",
+                    isinstance(res, dict) and set(res.keys()) == set(o.name for o in obs_list), case,
+                    {"keys": sorted(map(str, res.keys())) if isinstance(res, dict) else repr(type(res))})
+    init_call, calls = split_init_call(all_calls, results, obs_list[0] if obs_list else None, state,
+                                       (burn, steps, S)) if all_calls else (None, all_calls)
     if init_call is not None:
         ctx.count("leading_initialisation_call")
     cd = check_calls(ctx, case, state, calls, S, nc, burn, steps, init_before, init_call)
     if cd is None:
-        return
+        return None
     chains, draws = cd
+    # a new statistics() call starts fresh chains unless initial chains are passed: it must not carry on from the
+    # chain states an earlier call on the same object ended with
+    c0 = calls[0]
+    if init is None and init_call is None and prev_final is not None and c0["init"] is not None:
+        ctx.require("a new statistics() call does not continue the chains of the previous call on the same object",
+                    not (c0["init"].shape == prev_final.shape and torch.equal(c0["init"], prev_final)), case,
+                    {"call_index": call_index})
     # the caller's tensor
     if init is not None:
         ctx.count("first_draw_tensor:" + ("caller's" if calls[0]["init_ptr"] == init.data_ptr() else "copy"))
-        if ow:
+        if ow and dtype_name == "float64":
             ctx.require("overwrite=True: the caller's initial_state holds the final chain states",
                         torch.equal(init, calls[-1]["ret"]), case)
+        elif ow:
+            # other dtypes: the statement does not say what the caller's tensor holds afterwards -- informational
+            fin = torch.equal(init.to(torch.double), calls[-1]["ret"])
+            fst = torch.equal(init.to(torch.double), calls[0]["ret"])
+            ctx.count("overwrite_non_float64:caller_holds_" + ("final_states" if fin else "first_draw_states" if fst else "other"))
         else:
             ctx.require("overwrite=False: the caller's initial_state is left unchanged", torch.equal(init, init_before), case)
     # values drawn, per observable
     vals = [apply_obs(o, state, calls) for o in obs_list]         # vals[obs][draw][chain]
     for o, r, v in zip(obs_list, results, vals):
         check_result(ctx, case, ("System[%s]" % o.name) if is_system else "statistics", r, v, S, chains, draws)
-    allv = [x for v in vals[0] for x in v]
-    nontriv = draws >= 2 and len(set(allv)) > 1
+    allv = [x for v in vals[0] for x in v] if vals else []
+    nontriv = draws >= 2 and (len(set(allv)) > 1 or not vals)
     ctx.case({"part": spec["part"], "state": spec["state"]["kind"], "obs": keys, "S": S, "nc": nc, "burn": burn, "steps": steps,
-              "L": L, "ow": ow, "form": form}, nontrivial=nontriv)
+              "L": L, "ow": ow, "form": form, "dtype": dtype_name, "call": call_index}, nontrivial=nontriv)
+    ctx.count("num_observables=%d" % len(obs_list) if is_system else "single_observable")
+    ctx.count("size:" + ("S<=12" if S <= 12 else "S<=1000" if S <= 1000 else "S>1000"))
+    if init is not None:
+        ctx.count("init_dtype:" + dtype_name)
     ctx.count("%s:%s" % (spec["part"], spec["state"]["kind"]))
     ctx.count("form:" + form)
     ctx.count("draws=%d" % draws if draws < 6 else "draws>=6")
@@ -545,7 +601,8 @@ def stat_case(ctx, spec, state=None):
     sch = m.call("c13_schedule", init is not None, L or 0, nc, S, burn, steps, ow, chains)
     ctx.agree_exact("number of draws vs model num_draws (for the observed number of chains)", draws, int(sch[1]), case)
     ctx.agree_exact("k arguments vs model k_schedule", [c["k"] for c in calls], [int(x) for x in sch[2]], case)
-    ctx.agree_exact("reported count vs model chains*draws", int(results[0]["num_samples"]), int(sch[3]), case)
+    if results:
+        ctx.agree_exact("reported count vs model chains*draws", int(results[0]["num_samples"]), int(sch[3]), case)
     if not is_system:
         r = m.call("c13_statistics", vals[0], init is not None, L or 0, nc, S, burn, steps, chains)
         ctx.agree("statistics dictionary vs model statistics",
@@ -584,6 +641,7 @@ def stat_case(ctx, spec, state=None):
                          "alone": {k: float(v) for k, v in alone.items()}})
             ctx.count("system_vs_alone:compared")
     ctx.traces += 1
+    return calls[-1]["ret"]
 
 
 def from_samples_case(ctx, state, sspec, key, rows):
@@ -592,8 +650,10 @@ def from_samples_case(ctx, state, sspec, key, rows):
     m = ctx.get_model()
     o = make_obs(key)
     samples = torch.tensor(ctx.rng.integers(0, 2, size=(rows, sspec["nv"])).astype(float), dtype=torch.double)
-    case = {"part": "from_samples", "state": sspec, "obs": key, "samples": samples.tolist()}
-    ctx.case({"part": "from_samples", "state": sspec["kind"], "obs": key, "rows": rows, "s0": samples.tolist()}, nontrivial=rows >= 2)
+    case = {"part": "from_samples", "state": sspec, "obs": key, "rows": rows,
+            "samples": samples.tolist() if rows <= 64 else "random 0/1 rows (%d)" % rows}
+    ctx.case({"part": "from_samples", "state": sspec["kind"], "obs": key, "rows": rows, "s0": samples[:8].tolist()}, nontrivial=rows >= 2)
+    ctx.count("from_samples:rows" + ("<=64" if rows <= 64 else ">1000"))
     ok, r = ctx.call("statistics_from_samples", case, o.statistics_from_samples, state, samples.clone())
     if not ok:
         return
@@ -642,6 +702,8 @@ def run_statistics(ctx, Smax, sweeps, deadline=None):
                     spec = {"part": "statistics", "state": sspec, "obs": key, "S": S, "nc": nc, "burn": burn, "steps": steps,
                             "init": None, "overwrite": False, "torch_seed": ctx.torch_seed(),
                             "form": ("kw", "positional", "allkw")[(idx // 5) % 3]}
+                    if idx % 11 == 0:   # a history: further calls on the same observable object
+                        spec["then"] = [{"torch_seed": ctx.torch_seed()} for _ in range(1 + idx % 2)]
                     stat_case(ctx, spec, st)
             if deadline and time.time() > deadline:
                 return
@@ -655,7 +717,8 @@ def run_statistics(ctx, Smax, sweeps, deadline=None):
                 part = "system" if idx % 3 == 0 else "statistics"
                 spec = {"part": part, "state": sspec, "S": S, "nc": int(ctx.rng.integers(0, S + 3)), "burn": burn, "steps": steps,
                         "init": rand_init(ctx, L, sspec["nv"]), "overwrite": ow, "torch_seed": ctx.torch_seed(),
-                        "form": ("kw", "positional", "allkw")[idx % 3]}
+                        "form": ("kw", "positional", "allkw")[idx % 3],
+                        "init_dtype": ("float64", "float32", "float64", "int64", "float64", "uint8")[(idx // 2) % 6]}
                 if part == "system":
                     spec["obs_list"] = system_keys(ctx)
                 else:
@@ -671,6 +734,8 @@ def run_statistics(ctx, Smax, sweeps, deadline=None):
                 spec = {"part": "system", "state": sspec, "obs_list": system_keys(ctx), "S": S, "nc": nc, "burn": burn, "steps": steps,
                         "init": None, "overwrite": False, "torch_seed": ctx.torch_seed(),
                         "form": ("kw", "positional", "allkw")[idx % 3]}
+                if idx % 5 == 0:        # a history: further calls on the same System object
+                    spec["then"] = [{"torch_seed": ctx.torch_seed()} for _ in range(1 + idx % 2)]
                 stat_case(ctx, spec, st)
     # default arguments (num_chains / burn_in / steps as the signature declares them), with and without initial chains
     for S in range(1, Smax + 1, 1 if ctx.thorough else 2):
@@ -686,21 +751,101 @@ def run_statistics(ctx, Smax, sweeps, deadline=None):
                 else:
                     spec["obs"] = key
                 stat_case(ctx, spec, st)
+    # random large sizes (log-uniform up to 25000 samples), cheap observables
+    for _ in range(6 if ctx.thorough else 2):
+        st, sspec, _k = pick(idx)
+        idx += 1
+        S = int(np.exp(ctx.rng.uniform(np.log(200), np.log(25000))))
+        nc = int(ctx.rng.choice([0, 1 + int(ctx.rng.integers(0, S + 2)), S + 1]))
+        part = "system" if idx % 2 else "statistics"
+        burn, steps = PAIRS16[int(ctx.rng.integers(0, 16))]
+        if nc and S // nc > 40:
+            burn, steps = min(burn, 1), min(steps, 1)
+            nc = max(nc, S // 40)
+        spec = {"part": part, "state": sspec, "S": S, "nc": nc, "burn": burn, "steps": steps, "init": None, "overwrite": False,
+                "torch_seed": ctx.torch_seed(), "form": "kw"}
+        if part == "system":
+            spec["obs_list"] = [str(x) for x in ctx.rng.choice(["Z", "NN", "absZ", "NNp"], size=int(ctx.rng.integers(0, 3)), replace=False)]
+        else:
+            spec["obs"] = str(ctx.rng.choice(["Z", "NN", "absZ"]))
+        stat_case(ctx, spec, st)
+        from_samples_case(ctx, st, sspec, "Z", int(np.exp(ctx.rng.uniform(np.log(1000), np.log(25000)))))
     # statistics_from_samples directly (1 row: nan variance)
     for i, (st, sspec) in enumerate(states):
         for rows in (1, 2, 3, 7):
             from_samples_case(ctx, st, sspec, OBS_KEYS[(i + rows) % len(OBS_KEYS)], rows)
 
 
-def system_keys(ctx):
-    k = int(ctx.rng.integers(2, 5))
+def system_keys(ctx, k=None):
+    """a set of 0..4 distinct observables (0 and 1 included: the empty System and the single-observable System)"""
+    if k is None:
+        k = int(ctx.rng.choice([0, 1, 1, 2, 2, 3, 4]))
     keys = [str(x) for x in ctx.rng.choice(OBS_KEYS, size=k, replace=False)]
-    if "2Z-X" not in keys and "mix" not in keys and ctx.rng.random() < 0.6:
+    if k >= 2 and "2Z-X" not in keys and "mix" not in keys and ctx.rng.random() < 0.6:
         keys[-1] = "2Z-X"
     return keys
 
 
+def run_fixed(ctx):
+    """Fixed cases that always run first: large sizes (thousands of samples / chains / rows), Systems with one and
+    with zero observables (incl. initial chains / overwrite), histories of several statistics() calls on the SAME
+    observable / System object, initial chains of other dtypes than float64."""
+    states = make_states(ctx, 1)
+    (sp, sp_spec), (sc, sc_spec), (sd, sd_spec) = states[0], states[1], states[2]
+
+    def spec(part, st_spec, obs, S, nc, burn, steps, init=None, ow=False, form="kw", dtype="float64", then=None):
+        d = {"part": part, "state": st_spec, "S": S, "nc": nc, "burn": burn, "steps": steps, "init": init, "overwrite": ow,
+             "form": form, "init_dtype": dtype, "torch_seed": ctx.torch_seed()}
+        d["obs_list" if part == "system" else "obs"] = obs
+        if then is not None:
+            d["then"] = [dict(t, torch_seed=ctx.torch_seed()) for t in then]
+        return d
+    big = [
+        (sp, spec("statistics", sp_spec, "Z", 25000, 0, 1, 1)),
+        (sc, spec("statistics", sc_spec, "Z", 25000, 12000, 2, 1)),
+        (sd, spec("statistics", sd_spec, "NN", 20001, 10000, 1, 2, form="positional")),
+        (sp, spec("statistics", sp_spec, "absZ", 5000, 4097, 0, 1)),
+        (sp, spec("statistics", sp_spec, "X", 4100, 0, 1, 0)),
+        (sc, spec("system", sc_spec, ["Z", "NN"], 25000, 0, 1, 1)),
+        (sd, spec("system", sd_spec, ["Z"], 12000, 10001, 1, 1)),
+        (sp, spec("statistics", sp_spec, "Z", 9000, 3, 2, 1, init=rand_init(ctx, 5000, sp_spec["nv"]), ow=True, dtype="float32")),
+        (sc, spec("system", sc_spec, ["NNp", "Z"], 16385, 7, 1, 1, init=rand_init(ctx, 8193, sc_spec["nv"]), ow=True)),
+    ]
+    few = [
+        # one / zero observables, with and without initial chains
+        (sp, spec("system", sp_spec, ["Z"], 5, 2, 3, 1, init=rand_init(ctx, 3, sp_spec["nv"]), ow=True)),
+        (sc, spec("system", sc_spec, ["X"], 6, 0, 2, 1, init=rand_init(ctx, 4, sc_spec["nv"]), ow=False, dtype="float32")),
+        (sd, spec("system", sd_spec, ["2Z-X"], 7, 1, 2, 3)),
+        (sp, spec("system", sp_spec, ["NN"], 4, 9, 1, 2, form="positional")),
+        (sp, spec("system", sp_spec, [], 5, 2, 3, 1, init=rand_init(ctx, 2, sp_spec["nv"]), ow=True)),
+        (sc, spec("system", sc_spec, [], 7, 3, 2, 1)),
+        (sd, spec("system", sd_spec, [], 3, 0, 1, 0, init=rand_init(ctx, 5, sd_spec["nv"]), ow=False, dtype="int64")),
+        # histories on one object
+        (sp, spec("statistics", sp_spec, "Z", 6, 2, 3, 1, then=[{}, {}])),
+        (sc, spec("statistics", sc_spec, "X", 5, 5, 2, 2, then=[{}, {"S": 10}])),
+        (sd, spec("statistics", sd_spec, "2Z-X", 4, 0, 1, 0, form="defaults", then=[{}])),
+        (sp, spec("system", sp_spec, ["Z", "X"], 6, 3, 3, 1, then=[{}, {"nc": 2}])),
+        (sc, spec("system", sc_spec, ["mix"], 8, 4, 2, 0, then=[{"init": rand_init(ctx, 4, sc_spec["nv"]), "overwrite": True}, {}])),
+        (sd, spec("statistics", sd_spec, "NN", 6, 3, 1, 1, init=rand_init(ctx, 3, sd_spec["nv"]), ow=True,
+                  then=[{"init": None, "overwrite": False}, {}])),
+        # other dtypes of the initial chains
+        (sp, spec("statistics", sp_spec, "Z", 9, 0, 3, 2, init=rand_init(ctx, 3, sp_spec["nv"]), ow=True, dtype="float32")),
+        (sc, spec("statistics", sc_spec, "X", 7, 0, 2, 1, init=rand_init(ctx, 2, sc_spec["nv"]), ow=False, dtype="int64")),
+        (sd, spec("system", sd_spec, ["Z", "NN"], 8, 0, 1, 2, init=rand_init(ctx, 3, sd_spec["nv"]), ow=True, dtype="uint8")),
+    ]
+    for st, sp_ in few + big:
+        stat_case(ctx, sp_, st)
+    for st, sspec, key, rows in ((sp, sp_spec, "Z", 4097), (sc, sc_spec, "Z", 5000), (sd, sd_spec, "NN", 8193),
+                                 (sp, sp_spec, "Z", 20000), (sc, sc_spec, "X", 5000)):
+        from_samples_case(ctx, st, sspec, key, rows)
+    # the merge routine on long chunks
+    data = ctx.rng.normal(size=5000)
+    merge_case(ctx, data, [4096, 904], steps_vs_model=False)
+    merge_case(ctx, data, [1, 4998, 1], steps_vs_model=False)
+
+
 def run(ctx):
+    run_fixed(ctx)
     run_merge(ctx)
     run_statistics(ctx, Smax=12 if ctx.thorough else 8, sweeps=3 if ctx.thorough else 1)
 
